@@ -979,6 +979,12 @@ func (m *mach) callFn(caller *mframe, fn *ssa.Function, args []mv, env []mv) mv 
 			return r
 		}
 	}
+	if o := fn.Origin(); o != nil && o.Pkg != nil && o.Pkg.Pkg.Path() == "slices" {
+		// members of package slices whose bodies test for overlapping memory with package unsafe
+		if r, ok := m.slicesModel(fn, o.Name(), args); ok {
+			return r
+		}
+	}
 	inModule := fn.Blocks != nil && (m.c.InModule(fn) || (fn.Pkg != nil && m.c.isLibPath(fn.Pkg.Pkg.Path())))
 	if !inModule && fn.Blocks != nil && m.execExternal != nil && m.execExternal(fn) {
 		inModule = true
